@@ -747,27 +747,34 @@ def id_filters(ck, rule_filter, rule_order):
             raise AnalysisError(f"{read.where}: groupby of the CMAP rows not found")
         gb, gnode = grouped
         gcol = gb[3][0] if gb[3] else None
-        isin = [x for x in T.subterms(gb[1]) if x[0] == "mcall" and x[2] == "isin"]
         w = where(read, gnode)
-        if filtered is True:
-            n_f += 1
-            if not isin:
-                ck.violation(rule_filter, "CmapReader.__read:filter", w, "ids were given but the rows are grouped without the "
-                             "isin filter", found=T.show(gb[1])[:160], required="maps[maps[col].isin(moleculeIds)] before groupby")
-            else:
-                fcol = isin[0][1][2] if isin[0][1][0] == "idx" else None
-                given = isin[0][3][0] if len(isin[0][3]) == 1 else None
-                while given is not None and given[0] == "call" and given[1] in ("list", "tuple", "set", "frozenset", "sorted") and len(given[2]) == 1:
-                    given = given[2][0]               # the ids materialised first: the same ids
-                ck.judge(fcol == gcol and given == ids, rule_filter, "CmapReader.__read:filter", w,
-                         "filter column == grouping column; the filter uses the ids given and precedes grouping",
-                         found=f"filter on {T.show(fcol) if fcol else None} with {T.show(isin[0][3][0])[:40] if isin[0][3] else None}, "
-                               f"grouped by {T.show(gcol) if gcol else None}", required="one column, the given ids")
-        elif filtered is False:
-            ck.judge(not isin, rule_filter, "CmapReader.__read:no-filter", w, "without ids every molecule is kept",
-                     found="filtered anyway" if isin else None)
-        ck.judge(gcol == C("CMapId"), rule_order, "CmapReader.__read:group-key", w, "rows are grouped by the molecule id column",
-                 found=T.show(gcol) if gcol else "None", required="'CMapId'")
+        # the filter as a conditional expression (`rows[...] if ids else rows`): the two cases of the path
+        if filtered is None and gb[1][0] == "select" and T.as_bool(gb[1][1]) in (T.as_bool(ids), ids):
+            cases_f = [(True, gb[1][2]), (False, gb[1][3])]
+        else:
+            cases_f = [(filtered, gb[1])]
+        for filtered, recv_f in cases_f:
+            isin = [x for x in T.subterms(recv_f) if x[0] == "mcall" and x[2] == "isin"]
+            gb = (gb[0], recv_f) + tuple(gb[2:])
+            if filtered is True:
+                n_f += 1
+                if not isin:
+                    ck.violation(rule_filter, "CmapReader.__read:filter", w, "ids were given but the rows are grouped without the "
+                                 "isin filter", found=T.show(gb[1])[:160], required="maps[maps[col].isin(moleculeIds)] before groupby")
+                else:
+                    fcol = isin[0][1][2] if isin[0][1][0] == "idx" else None
+                    given = isin[0][3][0] if len(isin[0][3]) == 1 else None
+                    while given is not None and given[0] == "call" and given[1] in ("list", "tuple", "set", "frozenset", "sorted") and len(given[2]) == 1:
+                        given = given[2][0]               # the ids materialised first: the same ids
+                    ck.judge(fcol == gcol and given == ids, rule_filter, "CmapReader.__read:filter", w,
+                             "filter column == grouping column; the filter uses the ids given and precedes grouping",
+                             found=f"filter on {T.show(fcol) if fcol else None} with {T.show(isin[0][3][0])[:40] if isin[0][3] else None}, "
+                                   f"grouped by {T.show(gcol) if gcol else None}", required="one column, the given ids")
+            elif filtered is False:
+                ck.judge(not isin, rule_filter, "CmapReader.__read:no-filter", w, "without ids every molecule is kept",
+                         found="filtered anyway" if isin else None)
+            ck.judge(gcol == C("CMapId"), rule_order, "CmapReader.__read:group-key", w, "rows are grouped by the molecule id column",
+                     found=T.show(gcol) if gcol else "None", required="'CMapId'")
     if n_f == 0:
         ck.violation(rule_filter, "CmapReader.__read:filter", read.where,
                      "the reader never branches on the ids it is given: the -qId/-rId restriction is ignored (or applied even "
